@@ -195,6 +195,31 @@ def cycle_rules(rep, prog, f, leftover):
     rep.check("CYCLES.longer", leftover in ("entries", "count"), w, "longer cycles never drain and are caught after the loop", "nothing rejects cycles of length >= 3")
 
 
+def strip_conv(c):
+    """len(np.asarray(A)) / len((A != 0).astype(int)) -> len(A): conversions keep the number of nodes"""
+    def rec(t):
+        if not isinstance(t, tuple) or not t or not isinstance(t[0], str):
+            return tuple(rec(x) for x in t) if isinstance(t, tuple) else t
+        if t[0] == "ext" and t[1] in ("numpy.asarray", "numpy.array", "numpy.atleast_2d") and len(t[2]) == 1:
+            return rec(t[2][0])
+        if t[0] == "method" and t[2] in ("astype", "copy"):
+            return rec(t[1])
+        if t[0] == "cmp" and t[1] == "!=" and is_const(t[3], 0) and isinstance(t[2], tuple) and t[2][:1] == ("param",):
+            return t[2] if False else t
+        return tuple(rec(x) for x in t)
+    def lens(t):
+        # len(<pattern of A>) -> len(A)
+        if isinstance(t, tuple) and len(t) == 4 and t[0] == "ext" and t[1] == "len" and len(t[2]) == 1:
+            x = t[2][0]
+            while isinstance(x, tuple) and len(x) > 2 and ((x[0] == "method" and x[2] in ("astype", "copy")) or (x[0] == "cmp" and x[1] == "!=" and is_const(x[3], 0))):
+                x = x[1] if x[0] == "method" else x[2]
+            return ("ext", "len", (x,), ())
+        if isinstance(t, tuple):
+            return tuple(lens(x) for x in t)
+        return t
+    return lens(rec(c))
+
+
 def acyclicity_core(rep, prog):
     """what every `graph is not a DAG -> ValueError` clause of the library rests on: is_dag is exactly "topological_ordering
     returned", Kahn's loop has its shape, and every kind of cycle is rejected by the pre-check or the leftover test"""
@@ -211,6 +236,22 @@ def acyclicity_core(rep, prog):
     rets = S.select("return", qname=f.qname)
     rep.check("TOPO.returns", bool(rets) and all(not is_const(r.value) and r.value not in (("list", ()), ("tuple", ())) for r in rets), fwhere(f),
               "returns the computed ordering", "returns a constant")
+    # a return that is not reached through Kahn's loop (a "trivial graph" fast path) skips the pre-check and the leftover test:
+    # it may only concern the graph without nodes - a 1 x 1 matrix can hold a self-loop
+    loops_q = [v for k, v in S.loopinfo.items() if v["func"] == f.qname or v["func"] in {x.qname for x in S.facts if x.root == f.qname}]
+    first_loop = min([getattr(v["node"], "lineno", 10**9) for v in loops_q] or [10**9])
+    A_ = ("param", "A")
+    empty_forms = []
+    for ln_ in (("ext", "len", (A_,), ()), ("sub", ("attr", A_, "shape"), ("const", 0)), ("attr", A_, "size")):
+        empty_forms += [npred(("cmp", "==", ln_, ("const", 0)), True), npred(("cmp", "<", ln_, ("const", 1)), True), npred(("cmp", "<=", ln_, ("const", 0)), True)]
+    for r in rets:
+        if getattr(r.node, "lineno", 10**9) < first_loop:
+            conds = [npred(strip_conv(c), pol) for c, pol in r.path]
+            if any(c in empty_forms for c in conds):
+                rep.ok("TOPO.fast-path", fwhere(f, r.node), "early return for the graph without nodes only")
+            else:
+                rep.bad("TOPO.fast-path", fwhere(f, r.node), "an ordering is returned before the cycle checks under `%s`: a graph this condition admits (e.g. the 1 x 1 matrix "
+                        "with a non-zero entry, a self-loop) is accepted without being tested" % "; ".join(pred_fmt(c) for c in conds)[:120])
     leftover = kahn_rules(rep, prog, f, S)
     cycle_rules(rep, prog, f, leftover)
     # is_dag turns *every* ValueError of topological_ordering into "not a DAG": a rejection that looks at the element type of the
